@@ -1,0 +1,12 @@
+//go:build verif
+
+package storage
+
+// VerifResetGlobal resets the global storage to its initial unset state
+// (verif tag only).
+func VerifResetGlobal() {
+	mu.Lock()
+	defer mu.Unlock()
+	storage = nil
+	ready = make(chan struct{})
+}
